@@ -1,4 +1,5 @@
 mod engine;
+mod flow;
 mod gen;
 mod hz;
 mod props;
